@@ -26,8 +26,14 @@ ST = "esutil.stat.util."
 F = {n: sp.Function(n) for n in ("MEAN", "STD", "MEDIAN", "SUM")}
 
 
+# rules that keep their verdict however the code is laid out (decided by term equality, effect analysis or dominance over
+# resolved calls); every other rule of this check is a template rule (vcheck.core.Check.obt)
+SEMANTIC = ('R14.1', 'R14.5')
+
+
 def run(chk):
     repo = PyRepo()
+    chk.set_templates(repo, semantic=SEMANTIC)
     chk.explanation = MANIFEST["text"]
     chk.trusted = ["numpy reductions", "sympy normaliser", "CPython ast"]
     chk.floor = 45
